@@ -2162,3 +2162,125 @@ func c04r11(p *Program, r *Report) {
 		r.Unresolved("rowMap stores nothing into its map")
 	}
 }
+
+// c04r12: the scanner's current page is iterScanner.iter. A method that keeps a local copy of it and then replaces the
+// field (page switch) reads the rows of the page that is used up if it goes on through the local: every read of such
+// a local is on paths where the field has not been assigned since the local was (re)loaded from it.
+func c04r12(p *Program, r *Report) {
+	iterF := p.Field("iterScanner", "iter")
+	if iterF == nil {
+		r.Unresolved("iterScanner.iter not found")
+		return
+	}
+	n := 0
+	for _, fi := range p.SortedFuncs() {
+		if fi.Decl.Body == nil || fi.Pkg != p.Root {
+			continue
+		}
+		info := fi.Pkg.TypesInfo
+		// locals loaded from the field
+		locals := map[types.Object]bool{}
+		assignsField := false
+		inspectNoLit(fi.Decl.Body, func(x ast.Node) bool {
+			as, ok := x.(*ast.AssignStmt)
+			if !ok {
+				return true
+			}
+			for i, l := range as.Lhs {
+				if fieldOf(info, l) == iterF {
+					assignsField = true
+				}
+				if len(as.Lhs) == len(as.Rhs) && fieldOf(info, as.Rhs[i]) == iterF {
+					if id, isId := l.(*ast.Ident); isId {
+						obj := info.Defs[id]
+						if obj == nil {
+							obj = info.Uses[id]
+						}
+						if obj != nil {
+							locals[obj] = true
+						}
+					}
+				}
+			}
+			return true
+		})
+		if len(locals) == 0 || !assignsField {
+			continue
+		}
+		g := p.GraphOf(fi)
+		// state: the set of locals that are stale (may)
+		sol := Solve(g, Lattice[strset]{
+			Init: strset{},
+			Join: func(a, b strset) strset { return a.union(b) },
+			Eq:   func(a, b strset) bool { return a.eq(b) },
+			Step: func(s strset, st Step) strset {
+				if st.Kind != StNode {
+					return s
+				}
+				as, ok := st.Node.(*ast.AssignStmt)
+				if !ok {
+					return s
+				}
+				for i, l := range as.Lhs {
+					if fieldOf(info, l) == iterF {
+						// letting go of the iterator (is.iter = nil) is not a page switch: the local is all that is left
+						if len(as.Lhs) == len(as.Rhs) && isNil(info, as.Rhs[i]) {
+							continue
+						}
+						for obj := range locals {
+							// is.iter = L keeps L current
+							if len(as.Lhs) == len(as.Rhs) && isIdentOf(info, as.Rhs[i], obj) {
+								continue
+							}
+							s = s.with(obj.Name())
+						}
+					}
+					if id, isId := l.(*ast.Ident); isId {
+						obj := info.Defs[id]
+						if obj == nil {
+							obj = info.Uses[id]
+						}
+						if locals[obj] {
+							s = s.without(obj.Name())
+						}
+					}
+				}
+				return s
+			},
+		})
+		for obj := range locals {
+			n++
+			var bad ast.Node
+			ast.Inspect(fi.Decl.Body, func(x ast.Node) bool {
+				id, isId := x.(*ast.Ident)
+				if !isId || info.Uses[id] != obj || bad != nil {
+					return true
+				}
+				if as, isA := p.Parent(id).(*ast.AssignStmt); isA {
+					for _, l := range as.Lhs {
+						if l == ast.Expr(id) {
+							return true
+						}
+					}
+				}
+				node, found := g.cfgNodeOf(id)
+				if !found {
+					return true
+				}
+				if s, has := sol.Before(node); has && s[obj.Name()] {
+					bad = id
+				}
+				return true
+			})
+			var at ast.Node = fi.Decl
+			if bad != nil {
+				at = bad
+			}
+			r.Check(bad == nil, at, fi.Name+" reads the current page through "+obj.Name()+" only while it is the current page", "no read of the local after iterScanner.iter was assigned and before the local was reloaded",
+				"the local still refers to the page that is used up after the scanner switched to the next one: the rows (and the error) of the new page are never looked at, the scanner reads past the end of the old page's data")
+		}
+	}
+	if n == 0 {
+		r.OK(nil, "no method keeps a copy of iterScanner.iter across an assignment to it", "census")
+	}
+}
